@@ -557,7 +557,7 @@ func bmWholeAndParts(r *rand.Rand, t reflect.Type, depth int, stats map[string]i
 
 func bmBlock(r *rand.Rand, t reflect.Type, depth int, stats map[string]int) bcl.Block {
 	if t != nil && t.Kind() == reflect.Struct && r.Intn(5) < 2 {
-		if r.Intn(3) == 0 {
+		if r.Intn(2) == 0 {
 			if b, ok := bmWholeAndParts(r, t, depth, stats); ok {
 				return b
 			}
@@ -847,7 +847,7 @@ func streamBindModel(ctx *Ctx) *Result {
 		// direct oracle (C16): the same call on an equal target returns the same error, word for word
 		if err != nil && ptr.IsValid() && nblocks > 0 {
 			texts := map[string]int{}
-			for k := 0; k < 12; k++ {
+			for k := 0; k < 48; k++ {
 				fresh := reflect.New(ptr.Elem().Type())
 				var e2 error
 				v := guarded(opTimeout, func() string { e2 = bcl.Bind(fresh.Interface(), binding); return "" })
@@ -862,7 +862,7 @@ func streamBindModel(ctx *Ctx) *Result {
 			}
 			res.Count("repeat.on-error", 1)
 			if len(texts) > 1 {
-				res.Fail(Failure{Kind: "oracle", Op: "Bind repeated", Input: input(), Impl: fmt.Sprintf("%d different results of 12 identical calls on fresh targets: %v", len(texts), texts),
+				res.Fail(Failure{Kind: "oracle", Op: "Bind repeated", Input: input(), Impl: fmt.Sprintf("%d different results of 48 identical calls on fresh targets: %v", len(texts), texts),
 					Expected: "the same binding on an equal target gives the same error every time"})
 			}
 		}
